@@ -26,7 +26,10 @@ RULE = (
     "unprotected objects; optionally 12 planted objects named 00.. so that the base class takes the "
     "per-id branch for >1 ids; _ALWAYS_TRAVERSE; default = traverse), random queries of >=2 ids (plus a "
     "few 0/1-id ones), shallow/expanded, cache_odb = the store itself or a separate one, no index / "
-    "fresh index / pre-filled index incl. stale directories and stale files. history: <=10 (quick) / "
+    "fresh index / pre-filled index incl. stale directories and stale files; 35% of the stores are queried "
+    "through a LONG-LIVED handle: it has written >=1 of the objects itself (odb.add), then another writer "
+    "(second handle on the same directory, or a plain file drop) delivered further objects, mostly under "
+    "new 2-character prefix directories. history: <=10 (quick) / "
     "<=30 (thorough) operations Push(req, fails) / Fetch(local contents, req, fails) / ExtDelete / "
     "Query over one remote (base or local class) and ONE on-disk ObjectDBIndex; a push reads from a "
     "LocalHashFileDB with protected (0o444) objects; every failing upload (files and - in at least 1 push "
@@ -290,6 +293,7 @@ def gen_status_case(rng):
             "strategy": rng.choice(["default", "zz", "always-traverse"])}
     if rng.random() < 0.35:
         case["cache"] = [d for d in dn if rng.random() < 0.7]
+    case["lived"] = gen_lived(rng, store)
     r = rng.random()
     if r < 0.35:
         case["index"] = None
@@ -316,15 +320,55 @@ def gen_status_case(rng):
     return case
 
 
-def setup_store(ctx, W, root, sub, names, unprot, cls, strategy, inj=None, tmp=True):
+def gen_lived(rng, names):
+    """a long-lived handle (35% of the stores with >= 2 objects): which of the store's objects the
+    handle H1 that will be queried has written itself (odb.add, >= 1: ObjectDB._init then caches the
+    prefix directories it has seen), and which arrive afterwards from ANOTHER writer - a second
+    handle H2 on the same directory or a plain file drop - mostly under new prefix directories"""
+    names = list(names)
+    if len(names) < 2 or rng.random() >= 0.35:
+        return None
+    rng.shuffle(names)
+    k1 = rng.randint(1, max(1, len(names) // 3))
+    k2 = rng.randint(1, len(names) - k1)
+    return {"h1": sorted(names[:k1]), "late": sorted(names[k1:k1 + k2]),
+            "via": rng.choice(["handle", "plant"])}
+
+
+def setup_store(ctx, W, root, sub, names, unprot, cls, strategy, inj=None, tmp=True, lived=None):
+    """the store handle the query goes through, and the store directory.  Without [lived] the
+    objects are planted and a fresh handle is returned; with it the handle has a write history and
+    the store has a second writer (see gen_lived).  The final content is [names] either way."""
     path = os.path.join(root, sub)
-    W.plant(path, names, unprot)
+    later = set(lived["h1"]) | set(lived["late"]) if lived else set()
+    W.plant(path, [n for n in names if n not in later], unprot)
     if strategy == "zz":
         W.plant(path, [f"Z{i}" for i in range(len(ZZ))])
     cfg = {"tmp_dir": os.path.join(root, sub + "-tmp")} if tmp else {}
     odb = make_store(cls, path, inj, **cfg)
     if strategy == "always-traverse":
         odb.fs._ALWAYS_TRAVERSE = True
+    if lived:
+        from dvc_objects.fs.local import LocalFileSystem
+
+        work = os.path.join(root, sub + "-work")
+        os.makedirs(work, exist_ok=True)
+
+        def add_through(handle, ns):
+            paths = []
+            for n in ns:
+                fp = os.path.join(work, n)
+                with open(fp, "wb") as f:
+                    f.write(W.data[n])
+                paths.append(fp)
+            handle.add(paths, LocalFileSystem(), [W.oid[n] for n in ns])
+
+        add_through(odb, lived["h1"])
+        if lived["via"] == "handle":
+            add_through(make_store(cls, path, inj, **cfg), lived["late"])
+        else:
+            W.plant(path, lived["late"], unprot)
+        ctx.count(f"lived-handle:{sub}/{cls}/{lived['via']}")
     spy(odb, ctx)
     return odb, path
 
@@ -355,7 +399,7 @@ def run_status_case(ctx, case, real_ids=False):
     W = World(case["dirs"])
     root = ctx.fresh("st")
     odb, path = setup_store(ctx, W, root, "store", case["store"], case["unprot"], case["cls"],
-                            case["strategy"])
+                            case["strategy"], lived=case.get("lived"))
     cache_odb = None
     if case.get("cache") is not None:
         cpath = os.path.join(root, "cache")
@@ -484,6 +528,8 @@ def gen_compare_case(rng):
             "six": some_index("s"), "dix": some_index("d")}
     if rng.random() < 0.3:
         case["cache"] = [d for d in dn if rng.random() < 0.8]
+    case["lived_src"] = gen_lived(rng, src)
+    case["lived_dst"] = gen_lived(rng, dst)
     return case
 
 
@@ -493,8 +539,10 @@ def run_compare_case(ctx, case, real_ids=False):
 
     W = World(case["dirs"])
     root = ctx.fresh("cmp")
-    src, spath = setup_store(ctx, W, root, "src", case["src"], (), "local", "default")
-    dst, dpath = setup_store(ctx, W, root, "dst", case["dst"], (), case["cls"], case["strategy"])
+    src, spath = setup_store(ctx, W, root, "src", case["src"], (), "local", "default",
+                             lived=case.get("lived_src"))
+    dst, dpath = setup_store(ctx, W, root, "dst", case["dst"], (), case["cls"], case["strategy"],
+                             lived=case.get("lived_dst"))
     cache_odb = None
     if case.get("cache") is not None:
         cpath = os.path.join(root, "cache")
